@@ -291,16 +291,34 @@ def call_api(api, args, L):
     raise ValueError(api)
 
 
+def _cfg_of(key, prefix):
+    """configuration name of a cache key: 'stabilizer3-linear.txt' -> '3-linear'; (3, 'linear') -> '3-linear'; anything else -> str(key)"""
+    if isinstance(key, str):
+        if key.startswith(prefix) and key.endswith(".txt"):
+            return key[len(prefix):-len(".txt")]
+        return key
+    if isinstance(key, (tuple, list)):
+        return "-".join(str(x) for x in key)
+    return str(key)
+
+
 def cache_fields(L):
-    """{(kind, cfg): {field: object}} for everything currently cached"""
+    """{(kind, cfg): {field: object}} for everything currently cached in circuit_lookup's module-level caches.  The caches are implementation
+    details: an unrecognised layout gives coarser fields (or None: the projected-state comparison is then skipped), never an error."""
     out = {}
     cl = L.circuit_lookup
-    for fn, infos in getattr(cl, "stabilizer_file_cache", {}).items():
-        c = fn[len("stabilizer"):-len(".txt")]
-        out[("stab", c)] = {"infos": infos}
-    for fn, mi in getattr(cl, "mub_file_cache", {}).items():
-        c = fn[len("mub"):-len(".txt")]
-        out[("mub", c)] = {"circuits": mi.circuits, "mubs": mi.mubs, "header": [mi.total_cost, mi.max_cost, mi.max_depth, mi.num_qubits]}
+    try:
+        for key, infos in dict(getattr(cl, "stabilizer_file_cache", {})).items():
+            out[("stab", _cfg_of(key, "stabilizer"))] = {"infos": infos}
+        for key, mi in dict(getattr(cl, "mub_file_cache", {})).items():
+            flds = {name: getattr(mi, name) for name in ("circuits", "mubs") if hasattr(mi, name)}
+            if flds:
+                flds["header"] = [getattr(mi, a, None) for a in ("total_cost", "max_cost", "max_depth", "num_qubits")]
+            else:
+                flds = {"content": mi}
+            out[("mub", _cfg_of(key, "mub"))] = flds
+    except Exception:
+        return None
     return out
 
 
@@ -311,7 +329,13 @@ def digest(x):
 
 def project_cache(L):
     """projection of the cache state: per loaded file and field a digest of its canonical serialisation (compared with the pristine digests)"""
-    return {f"{k[0]}:{k[1]}": {fld: digest(ser(v, L)) for fld, v in flds.items()} for k, flds in cache_fields(L).items()}
+    cf = cache_fields(L)
+    if cf is None:
+        return None
+    try:
+        return {f"{k[0]}:{k[1]}": {fld: digest(ser(v, L)) for fld, v in flds.items()} for k, flds in cf.items()}
+    except Exception:
+        return None
 
 
 # ---------------------------------------------------------------------------------------------
@@ -379,7 +403,7 @@ def extract_aliases(apis, cfgs, L):
             except Exception:
                 continue
             rid = {i for i, o in mutable_ids(r, L).items() if _is_container(o)}
-            for (kind, c), flds in cache_fields(L).items():
+            for (kind, c), flds in (cache_fields(L) or {}).items():
                 for fld, obj in flds.items():
                     if fld == "header":
                         continue
